@@ -439,9 +439,14 @@ def r3_gsl(ctx: Context) -> None:
     nd = normaliser(prog, d, inline_locals=False)
     ss = [c for c in calls_in(d.node) if (dotted(c.func) or "").endswith("searchsorted")]
     ls = [c for c in calls_in(d.node) if (dotted(c.func) or "").endswith("linspace")]
-    ok = len(ss) == 1 and len(ls) == 1 and isinstance(kwarg(ss[0], "side", 2), ast.Constant) and kwarg(ss[0], "side", 2).value == "left" and src(ss[0].args[1]) == d.params[0] \
-        and str(nd.rat(ls[0].args[2])) == str(nd.rat(parse_expr(f"{d.params[1]} + 1"))) and str(nd.rat(ls[0].args[0])) == str(nd.rat(parse_expr(f"{d.params[2]} - EPS"))) \
-        and str(nd.rat(ls[0].args[1])) == str(nd.rat(parse_expr(f"{d.params[3]} + EPS")))
+    ok = len(ss) == 1 and len(ls) == 1
+    if ok:
+        sv, l0, l1, l2 = kwarg(ss[0], "v", 1), kwarg(ls[0], "start", 0), kwarg(ls[0], "stop", 1), kwarg(ls[0], "num", 2)
+        if any(x is None for x in (sv, l0, l1, l2)):
+            raise AnalysisError(f"{d.loc(d.node)}: cannot read the arguments of the searchsorted / linspace calls in discretize")
+        ok = isinstance(kwarg(ss[0], "side", 2), ast.Constant) and kwarg(ss[0], "side", 2).value == "left" and src(sv) == d.params[0] \
+            and str(nd.rat(l2)) == str(nd.rat(parse_expr(f"{d.params[1]} + 1"))) and str(nd.rat(l0)) == str(nd.rat(parse_expr(f"{d.params[2]} - EPS"))) \
+            and str(nd.rat(l1)) == str(nd.rat(parse_expr(f"{d.params[3]} + EPS")))
     ctx.check(ok, "R3.gsl-discretize", "GslDivLoss.discretize:bins", "nb_values equal-width bins on [min-EPS, max+EPS], insertion side 'left'", "discretisation changed", d, d.node)
 
 
